@@ -1,5 +1,5 @@
 (* EffectsSave.v — C10: WHERE harper-ls writes when it saves a dictionary, as the code computes it now
-   (harper-ls/src/dictionary_io.rs: file_dict_name since 08b9da8, save_dict since 87b8642; backend.rs: get_file_dict_path).
+   (harper-ls/src/dictionary_io.rs: file_dict_name since 08b9da8, save_dict since 87b8642 + a91f3ee; backend.rs: get_file_dict_path).
    Executable definitions only; lemmas in Proofs/EffectsSaveProofs.v.  Extracted and compared, per
    HarperAddToFileDict / HarperAddToUserDict command of every traced session, with the open-for-writing and rename
    system calls the implementation really issued (harness/src/bin/c10.rs).
@@ -60,6 +60,15 @@ Definition render (cs : list bytes) : bytes := match cs with [] => [slash] | _ =
 Definition save_plan (dst : list bytes) : bytes * bytes * bytes :=
   let t := render (resolve (tmp_comps dst)) in (t, t, render (resolve dst)).
 
+(* a component list that names a file: there is a last component and it is not ".." (Path::file_name() is Some) *)
+Definition names_file (cs : list bytes) : bool :=
+  match rev cs with n :: _ => negb (beqb n dotdot) | [] => false end.
+
+(* save_dict(dst) since a91f3ee (the fix of finding FC10b): a destination without a file name is refused BEFORE
+   anything is created (no create_dir_all, no temporary file); otherwise the plan above *)
+Definition save_dict_plan (dst : list bytes) : option (bytes * bytes * bytes) :=
+  if names_file dst then Some (save_plan dst) else None.
+
 (* HarperAddToFileDict: save_dict(config.file_dict_path.join(file_dict_name(url)?)).  file_dict_name fails — and nothing
    is written — when the URL has no file path, and (since 08b9da8) when that path has no component, i.e. the
    rewritten name is empty (`file:///`) *)
@@ -67,7 +76,7 @@ Definition file_dict_plan (filedir : bytes) (fp : option bytes) : option (bytes 
   match fp with
   | None => None
   | Some p => if beqb (file_dict_name p) [] then None
-              else Some (save_plan (join_comps filedir (file_dict_name p)))
+              else save_dict_plan (join_comps filedir (file_dict_name p))
   end.
 
 (* HISTORY (before 08b9da8, finding FC10a): the empty name was joined too — kept only for the regression witness *)
@@ -77,5 +86,8 @@ Definition file_dict_plan_old (filedir : bytes) (fp : option bytes) : option (by
   | Some p => Some (save_plan (join_comps filedir (file_dict_name p)))
   end.
 
-(* HarperAddToUserDict: save_dict(&config.user_dict_path) *)
-Definition user_dict_plan (user : bytes) : bytes * bytes * bytes := save_plan (comps user).
+(* HarperAddToUserDict: save_dict(&config.user_dict_path); None = refused, nothing written *)
+Definition user_dict_plan (user : bytes) : option (bytes * bytes * bytes) := save_dict_plan (comps user).
+
+(* HISTORY (before a91f3ee, finding FC10b): no file-name check — kept only for the regression witness *)
+Definition user_dict_plan_old (user : bytes) : bytes * bytes * bytes := save_plan (comps user).
